@@ -229,12 +229,11 @@ func (vm *progVM) step() *progStep {
 		}
 		if a.Class == 1 && b.Class == 1 && cc.Class != 0 { // (with a zero addend FMA is Mul, which saturates correctly: not part of D15)
 			ple := leadOf(a) + leadOf(b) // the product's lead exponent is ple or ple-1
-			switch {
-			case ple-1 > oracle.MaxExp || ple < oracle.MinExp:
-				st.kf = "fma_product_exponent_out_of_range"
-			case ple > oracle.MaxExp || ple-1 < oracle.MinExp:
-				pk := &opCase{op: "FMA", x: a.Val(), y: b.Val(), u: cc.Val()}
-				if fmaProductOutOfRange(pk) {
+			if ple > oracle.MaxExp || ple-1 < oracle.MinExp {
+				// the programs only look at panics here: the finding covers exactly the ErrNaN of Inf - Inf that the
+				// saturated product provokes (any other panic in this class is a violation of its own)
+				pk := &opCase{op: "FMA", x: a.Val(), y: b.Val(), u: cc.Val(), p: 1}
+				if nan, _, ok := fmaKnownOutcome(pk); ok && nan {
 					st.kf = "fma_product_exponent_out_of_range"
 				}
 			}
